@@ -43,7 +43,7 @@ def check(rep, an, tier):
         res = an.run(f"{EST}.register_system", kws=kw, self_fields=fields, spec=spec, config=f"domain={given}")
         api_results.append(res)
         entry = "ReceptorEstimator.register_system"
-        st = [e for e in res.events("self_store") if e.d["attr"] == "A" and len(e.path) == 1]
+        st = [e for e in res.events("self_store") if e.d["attr"] == "A"]
         if not st:
             rep.violated("R-EFFECT", "register_system stores A", where=res.fn.loc(), construct="self.A = …", entry=entry,
                          config=res.config, msg="A is not assigned")
@@ -134,7 +134,7 @@ def check(rep, an, tier):
                 kw.update(add_baseline=flag("add_baseline", add_b), add=flag("add", add))
                 res = an.run(f"{EST}.{meth}", kws=kw, self_fields=fields, spec=spec, config=cfgname(dict(add_baseline=add_b, add=add)))
                 entry = f"ReceptorEstimator.{meth}"
-                st = [e for e in res.events("self_store") if e.d["attr"] == "K" and len(e.path) == 1]
+                st = [e for e in res.events("self_store") if e.d["attr"] == "K"]
                 if not st:
                     rep.violated("R-EFFECT", "adaptation stores K", where=res.fn.loc(), construct="self.K = …", entry=entry, config=res.config,
                                  msg="K is not assigned")
